@@ -84,7 +84,7 @@ Definition panic_table : list (skey * (panic_class * N)) :=
     (("internal/executor/handle.go", "BlockExecutor.postNodeEvent", "go"), (DetachedSend, 1));
     (("internal/executor/handle.go", "BlockExecutor.postBlockEvent", "go"), (DetachedSend, 2));
     (("internal/executor/handle.go", "BlockExecutor.postLogsEvent", "go"), (DetachedSend, 1));
-    (("internal/executor/handle.go", "BlockExecutor.applyTransaction", "assert"), (ParallelOnly, 4));
+    (("internal/executor/handle.go", "BlockExecutor.applyTransaction", "assert"), (ParallelOnly, 6));   (* 2 added by the IBTP revert fix c5b36093, all under supportParallel *)
     (("internal/executor/handle.go", "BlockExecutor.getChanger", "assert"), (ParallelOnly, 1));
     (("pkg/vm/boltvm/bolt_stub.go", "BoltStubImpl.SetObject", "panic"), (UnderRunRecover, 1));
     (("pkg/vm/boltvm/bolt_stub.go", "BoltStubImpl.AddObject", "panic"), (UnderRunRecover, 1));
